@@ -1,6 +1,6 @@
 """C05  Every way of fetching stored frames returns the same pixels.
 
-Tie T: T1 T4 T11 T11b T11c T12 (regenerated).  Tie C: the composed model (Model/FrameAccess.lean)
+Tie T: T1 T1b T4 T11 T11b T11c T11d T12 (regenerated).  Tie C: the composed model (Model/FrameAccess.lean)
 against Image.get_stored_frame on in-memory / eager-file / lazy-file images for native syntaxes.
 Oracle (independent of the model): every access path equals pydicom's decode of that frame; numbers
 outside the image raise.
@@ -15,7 +15,7 @@ import os
 import numpy as np
 
 PROP = 'C05'
-TARGETS = ['T1', 'T1b', 'T4', 'T11', 'T11b', 'T11c', 'T12']
+TARGETS = ['T1', 'T1b', 'T4', 'T11', 'T11b', 'T11c', 'T11d', 'T12']
 LEAN_MODULES = ['HdVerif.Props.C05']
 MODEL_MODULES = ['HdVerif.Model.FrameAccess']
 NAMESPACE = 'HdVerif.C05'
@@ -545,11 +545,93 @@ def _colour(ctx, reqs, pending):
                                      site=what + '/cached')
 
 
+def _synthetic_fragments(ctx, reqs, pending):
+    """Encapsulated pixel data made of ARBITRARY byte fragments (no codec): exercises the marker test of `_build_bot`
+    (JPEG SOI, JPEG 2000 SOC and near misses), the choice between frame and fragment offsets, the refusal when neither
+    count fits, and the fragment walk of `read_frame_raw` for every frame.  Oracle: frame i's raw bytes are the
+    concatenation of the fragments that were written for frame i."""
+    import highdicom as hd
+    from pydicom.filebase import DicomBytesIO
+    from pydicom.uid import JPEG2000Lossless, JPEGBaseline8Bit, JPEGLSLossless
+    from gen.images import MF_SC_BYTE, base_dataset, to_bytes
+    item = lambda b: b'\xfe\xff\x00\xe0' + len(b).to_bytes(4, 'little') + b     # noqa: E731
+    near = [b'\xff\xd9', b'\xff\x4e', b'\xd8\xff', b'\x4f\xff', b'\xff\x50', b'\xff\xd7', b'\x00\x00', b'\xfe\xff', b'\xff\xff']
+    for idx in range(ctx.n(60, 900)):
+        r = ctx.rng('synfrag', idx)
+        nfr = r.randint(1, 6)
+        marker = r.choice([b'\xff\xd8', b'\xff\x4f'])
+        style = r.choice(['marked', 'marked', 'single-unmarked', 'partly-marked', 'mismatch'])
+
+        def frag(first2):
+            return first2 + bytes(r.randrange(256) for _ in range(2 * r.randint(0, 4)))
+        frames = []
+        for q in range(nfr):
+            if style == 'marked':
+                fr = [frag(marker)] + [frag(r.choice(near)) for _ in range(r.choice([0, 0, 1, 2, 3]))]
+            elif style == 'single-unmarked':
+                fr = [frag(r.choice(near))]
+            elif style == 'partly-marked':
+                fr = [frag(marker if (q % 2 == 0) else r.choice(near))]
+            else:
+                fr = [frag(r.choice(near)) for _ in range(2 if q == 0 else r.choice([1, 2]))]
+            frames.append(fr)
+        if style == 'partly-marked' and nfr == 1:
+            style = 'marked'
+        declared = nfr
+        flat = [f for fr in frames for f in fr]
+        ds = base_dataset(MF_SC_BYTE, r.choice([JPEG2000Lossless, JPEGBaseline8Bit, JPEGLSLossless]))
+        ds.NumberOfFrames = declared
+        ds.Rows, ds.Columns, ds.SamplesPerPixel = 4, 4, 1
+        ds.PhotometricInterpretation = 'MONOCHROME2'
+        ds.BitsAllocated, ds.BitsStored, ds.HighBit, ds.PixelRepresentation = 8, 8, 7, 0
+        ds.PixelData = item(b'') + b''.join(item(f) for f in flat) + b'\xfe\xff\xdd\xe0\x00\x00\x00\x00'
+        ds['PixelData'].VR = 'OB'
+        ds['PixelData'].is_undefined_length = True
+        blob = to_bytes(ds)
+        d = {'idx': idx, 'style': style, 'frames': nfr, 'fragments': [len(fr) for fr in frames], 'marker': marker.hex()}
+        frags = [list(f) for f in flat]
+        rd = hd.io.ImageFileReader(DicomBytesIO(blob))
+        st, _ = _fetch(rd.__enter__)
+        entered = st == 'ok'
+        if entered:
+            st, _ = _fetch(lambda: rd.metadata)     # the offset table is built when the metadata are first read
+            if st != 'ok':
+                rd.__exit__(None, None, None)
+        ctx.case(path='reader/synthetic', style=style, nontrivial_key=('syn', style, nfr, tuple(len(fr) for fr in frames), marker.hex()),
+                 outcome=('ok' if st == 'ok' else _))
+        table = getattr(rd, '_offset_table', None) if st == 'ok' else None
+        reqs.append(('getBot', {'stored': [], 'frags': frags, 'n': declared}))
+        pending.append(({'syn': d, 'what': 'offset table of synthetic fragments', 'layer': 'L2'},
+                        ('ok', [int(x) for x in table]) if st == 'ok' and table is not None else ('err', _err_kind(_))))
+        # oracle: the table is refused exactly when neither the marked fragments nor all fragments are one per frame
+        n_marked = sum(1 for f in flat if f[:2] in (b'\xff\xd8', b'\xff\x4f'))
+        fits = n_marked == declared or len(flat) == declared
+        if fits != (st == 'ok'):
+            ctx.fail({'syn': d}, f'offset table {"refused" if fits else "built"} although marked={n_marked}, fragments={len(flat)}, '
+                                 f'frames={declared}', site='_build_bot/synthetic')
+        if st != 'ok':
+            continue
+        try:
+            for i in range(nfr):
+                st2, raw = _fetch(rd.read_frame_raw, i)
+                ctx.case(path='reader/synthetic-frame', style=style)
+                case = {'syn': d, 'i': i}
+                want = b''.join(frames[i])
+                if st2 != 'ok' or bytes(raw) != want:
+                    ctx.fail(case, f'raw bytes of frame {i} are not its fragments: {raw if st2 != "ok" else bytes(raw).hex()} != {want.hex()}',
+                             site='read_frame_raw/synthetic')
+                reqs.append(('readFrameRawEnc', {'frags': frags, 'table': [int(x) for x in table], 'i': i}))
+                pending.append((case, ('ok', list(raw)) if st2 == 'ok' else ('err', _err_kind(raw))))
+        finally:
+            rd.__exit__(None, None, None)
+
+
 def run(ctx):
     reqs, pending = [], []
     _helpers(ctx, reqs, pending)
     _colour(ctx, reqs, pending)
     _encapsulated(ctx, reqs, pending)
+    _synthetic_fragments(ctx, reqs, pending)
     for d, ds, fr in _images(ctx):
         _check_image(ctx, d, ds, fr, reqs, pending)
     _fixtures(ctx)
@@ -583,7 +665,7 @@ def replay(ctx, case):
     def key(c):
         if not isinstance(c, dict):
             return None
-        for k in ('image', 'enc'):
+        for k in ('image', 'enc', 'syn'):
             if k in c and isinstance(c[k], dict):
                 return (k, c[k].get('idx'), c[k].get('colour'), c.get('path', '').split('/')[0])
         if 'fixture' in c:
